@@ -367,6 +367,17 @@ def _evidence(mod, tier, seed, t0, lean, cases, results, violations, extra):
         explanation=getattr(mod, 'EXPLANATION', ''),
     )
     cov.update(extra)
+    # the shared / foundation stages that contributed cases to this run, with their own generation rules and assumptions
+    stages = {}
+    for fname in foundations_of(mod):
+        try:
+            fm = importlib.import_module(fname)
+        except Exception:  # noqa
+            continue
+        stages[fname] = dict(rule=getattr(fm, 'RULE', ''), assumptions=list(getattr(fm, 'ASSUMPTIONS', [])),
+                             cases=sum(1 for c in cases if isinstance(c, dict) and c.get('foundation') == fname),
+                             lean_targets=list(getattr(fm, 'LEAN_TARGETS', []) or []))
+    cov['stages'] = stages
     if hasattr(mod, 'coverage_extra'):
         cov.update(mod.coverage_extra())
     ev = dict(property_id=pid, tier='thorough' if tier == 'thorough' else 'quick', seed=seed,
